@@ -314,7 +314,7 @@ static void vf_trace_rec(int phase, int op, const volatile void *addr, const cha
 	}
 	vf_tr_ent_t *e = &r->e[r->n++ % VF_TR_N];
 	e->seq = atomic_fetch_add(&g_tr_seq, 1); e->addr = addr; e->func = func; e->line = line; e->op = (short)op; e->phase = (short)phase; e->tid = r->tid;
-	e->val = ((uintptr_t)addr & 3) ? 0 : *(const volatile uint32_t *)addr;
+	e->val = ((uintptr_t)addr & 7) ? (((uintptr_t)addr & 3) ? 0 : *(const volatile uint32_t *)addr) : *(const volatile uint64_t *)addr;
 }
 
 static void vf_trace_dump(int sig, siginfo_t *si, void *uc)
@@ -328,12 +328,33 @@ static void vf_trace_dump(int sig, siginfo_t *si, void *uc)
 		for (unsigned i = 0; i < n; i++) {
 			vf_tr_ent_t *e = &r->e[i];
 			if ((uintptr_t)e->addr >= lo && (uintptr_t)e->addr < hi)
-				fprintf(stderr, "VF_TRACE %llu tid=%d %s:%d op=%d phase=%d addr=%p val32=%#llx\n", (unsigned long long)e->seq, e->tid, e->func, e->line, e->op, e->phase, (void *)e->addr, (unsigned long long)e->val);
+				fprintf(stderr, "VF_TRACE %llu tid=%d %s:%d op=%d phase=%d addr=%p val=%#llx\n", (unsigned long long)e->seq, e->tid, e->func, e->line, e->op, e->phase, (void *)e->addr, (unsigned long long)e->val);
 		}
 	}
 	fflush(stderr);
 	signal(sig, SIG_DFL);
 	raise(sig);
+}
+
+/* addresses of interest (VF_TRACE): dumped, ordered by sequence number, when a violation is reported */
+static const volatile void *g_tr_watch[32]; static int g_tr_nwatch;
+void vf_trace_watch(const volatile void *addr) { if (g_tr_nwatch < 32) g_tr_watch[g_tr_nwatch++] = addr; }
+void vf_trace_watch_reset(void) { g_tr_nwatch = 0; }
+static int tr_cmp(const void *a, const void *b) { const vf_tr_ent_t *x = *(vf_tr_ent_t *const *)a, *y = *(vf_tr_ent_t *const *)b; return x->seq < y->seq ? -1 : x->seq > y->seq; }
+void vf_trace_dump_watched(void)
+{
+	if (!g_trace || !g_tr_nwatch) return;
+	size_t cap = 0, n = 0;
+	for (vf_tr_ring_t *r = atomic_load(&g_tr_rings); r; r = r->next) cap += VF_TR_N;
+	vf_tr_ent_t **v = malloc(sizeof(*v) * (cap + 1));
+	for (vf_tr_ring_t *r = atomic_load(&g_tr_rings); r; r = r->next) {
+		unsigned m = r->n < VF_TR_N ? r->n : VF_TR_N;
+		for (unsigned i = 0; i < m; i++) for (int w = 0; w < g_tr_nwatch; w++) if (r->e[i].addr == g_tr_watch[w]) { v[n++] = &r->e[i]; break; }
+	}
+	qsort(v, n, sizeof(*v), tr_cmp);
+	for (size_t i = 0; i < n; i++) fprintf(stderr, "VF_TRACE %llu tid=%d %s:%d op=%d phase=%d addr=%p val=%#llx\n", (unsigned long long)v[i]->seq, v[i]->tid, v[i]->func, v[i]->line, v[i]->op, v[i]->phase, (void *)v[i]->addr, (unsigned long long)v[i]->val);
+	fflush(stderr);
+	free(v);
 }
 
 static void vf_atomic_hook(int phase, int op, const volatile void *addr,
